@@ -450,7 +450,8 @@ fn run_effects_arg(ctx: &C, effs: &[Effect], arg: i64) {
                 let ob = ctx.observers.borrow()[*o].first().cloned();
                 match ob {
                     Some(ob) => log(format!("note read o{} {}", o, render_read(ob.try_get_value()))),
-                    None => log(format!("note read o{} gone", o)),
+                    // every handle is gone: a retained clone would answer Disallowed
+                    None => log(format!("note read o{} err Disallowed", o)),
                 }
             }
             Effect::Stab => st(ctx).stabilise(),
@@ -830,7 +831,16 @@ fn elab_template(ctx: &C, t: &Template, lhs: &V) -> Incr<V> {
             loc.push(n);
         }
     }
-    resolve(ctx, &loc, &t.ret)
+    let ret = resolve(ctx, &loc, &t.ret);
+    // handles on the nodes built by the closure die with the closure call, as in ordinary user code:
+    // what stays alive is what the returned node (or the engine) still references
+    for n in &loc {
+        let h = ctx.handles.borrow_mut().remove(n);
+        let p = ctx.pair_handles.borrow_mut().remove(n);
+        drop(h);
+        drop(p);
+    }
+    ret
 }
 
 // ------------------------------------------------------------------------------------------------
